@@ -11,7 +11,7 @@ def inputsUntouched (w0 : World) (steps : List EStep) : Bool :=
   (runSteps w0 steps).written.all fun i => decide (w0.next ≤ i)
 
 /-- per step: the identities the property allows a step to write among those existing before it: none -/
-def allowedWrites (_ : EStep) : List ArrId := []
+def allowedWrites (_ : EStep) : List Nat := []
 
 /-- "write nothing except the explicitly requested files": one file per `write`, nothing else -/
 def requestedFiles : List EStep → Nat
